@@ -17,6 +17,7 @@ The descriptor is written down BY CONSTRUCTION of the program (and, for compile 
 import builtins
 import json
 import os
+import re
 import sys
 import tempfile
 import time
@@ -46,9 +47,20 @@ OK_HELPER = "def h():\n    return 5\n\nVALUE = 7\n"
 # exception descriptors
 
 
-def desc(cls, *, exc=True, sysexit=False, keyerr=False, hazards=(), syn_line=None, frames=()):
+def desc(cls, *, exc=True, sysexit=False, keyerr=False, hazards=(), syn_line=None, frames=(), mro=None):
+    """`mro`: names of the exception's class and its bases, when known by construction (oracle only, not on
+    the wire); defaults to the builtin class of that name."""
+    if mro is None:
+        mro = builtin_mro(cls)
     return {"cls": cls, "isException": bool(exc), "isSystemExit": bool(sysexit), "isKeyError": bool(keyerr),
-            "hazards": list(hazards), "synLine": syn_line, "frames": [list(f) for f in frames]}
+            "hazards": list(hazards), "synLine": syn_line, "frames": [list(f) for f in frames], "mro": mro}
+
+
+def builtin_mro(name):
+    obj = getattr(builtins, name, None)
+    if isinstance(obj, type) and issubclass(obj, BaseException):
+        return [c.__name__ for c in obj.__mro__ if c is not object]
+    return None
 
 
 def class_flags(cls):
@@ -90,9 +102,18 @@ USER_BASES = [
 # non-student frames at the innermost end.
 
 
-def snip(lines, fail_at, cls, flags, *, hazards=(), inner=(), tail=(), shape):
+def snip(lines, fail_at, cls, flags, *, hazards=(), inner=(), tail=(), shape, bases=None):
+    if bases is None:
+        m = re.match(r"class (\w+)\(([^)]*)\):", lines[0])
+        if m and m.group(1) == cls:
+            bases = [b.strip() for b in m.group(2).split(",")]
+    mro = None
+    if bases is not None:            # user-defined class: its own name, then its bases' MROs
+        mro = [cls]
+        for b in bases:
+            mro += [n for n in (builtin_mro(b) or []) if n not in mro]
     return {"lines": lines, "fail_at": fail_at, "cls": cls, "flags": flags, "hazards": list(hazards),
-            "inner": list(inner), "tail": list(tail), "shape": shape}
+            "inner": list(inner), "tail": list(tail), "shape": shape, "mro": mro}
 
 
 def failing_snippets(rng):
@@ -106,7 +127,7 @@ def failing_snippets(rng):
     for base, flags in USER_BASES:
         name = rng.choice(USER_NAMES)
         out.append(snip(["class %s(%s):" % (name, base), "    pass", "raise %s('boom')" % name], 2, name, flags,
-                        shape="user:" + base))
+                        shape="user:" + base, bases=[b.strip() for b in base.split(",")]))
     # hostile exception objects
     out.append(snip(["class HStr(Exception):", "    def __str__(self):", "        raise ValueError('no str')",
                      "raise HStr()"], 3, "HStr", dict(exc=True), hazards=["str"], shape="str-raises"))
@@ -159,7 +180,7 @@ def failing_snippets(rng):
                     shape="import:pedal.sub"))
     # errors created inside library / C code
     out.append(snip(["import json", "data = json.loads('{')"], 1, "JSONDecodeError", dict(exc=True),
-                    tail=["L", "L", "L"], shape="library:json"))
+                    tail=["L", "L", "L"], shape="library:json", bases=["ValueError"]))
     out.append(snip(["n = int('five')"], 0, "ValueError", dict(exc=True), shape="c:int"))
     out.append(snip(["d = {}", "v = d['missing']"], 1, "KeyError", dict(exc=True, keyerr=True), shape="c:keyerror"))
     out.append(snip(["items = [1, 2]", "v = items[5]"], 1, "IndexError", dict(exc=True), shape="c:index"))
@@ -233,7 +254,8 @@ def compile_failure_desc(code, filename):
         line = getattr(e, "lineno", None) if isinstance(e, SyntaxError) else None
         if isinstance(e, SyntaxError) and line is None:
             hz.append("synNoLine")
-        return desc(cls.__name__, **class_flags(cls), hazards=hz, syn_line=line, frames=[])
+        return desc(cls.__name__, **class_flags(cls), hazards=hz, syn_line=line, frames=[],
+                    mro=[c.__name__ for c in cls.__mro__ if c is not object])
     return None
 
 
@@ -257,7 +279,7 @@ def program_from_snippet(rng, sn, in_function, nest=None):
             lines = pre + imp + ["print('not reached')"]
             at = len(pre) + 1
         else:
-            lines = pre + ["def f():"] + ["    " + imp[0], "    return 1"]
+            lines = pre + ["def f(*args):"] + ["    " + imp[0], "    return 1"]
             at = len(pre) + 2
         # the import statement, pedal's mocked __import__, Sandbox._import, then the helper's own frames
         frames = [["S", at], ["P", 0], ["P", 0]] + inner
@@ -269,7 +291,7 @@ def program_from_snippet(rng, sn, in_function, nest=None):
             base = len(pre) + len(imp)
         else:
             body = ["    " + l for l in imp + sn["lines"]]
-            lines = pre + ["def f():"] + body + ["    return 1"]
+            lines = pre + ["def f(*args):"] + body + ["    return 1"]
             base = len(pre) + 1 + len(imp)
         frames = [["S", base + sn["fail_at"] + 1]] + [["S", base + i + 1] for i in sn["inner"]]
     frames += [[k, 0] for k in sn["tail"]]
@@ -277,7 +299,7 @@ def program_from_snippet(rng, sn, in_function, nest=None):
 
 
 def make_desc(sn, frames):
-    return desc(sn["cls"], hazards=sn["hazards"], frames=frames, **sn["flags"])
+    return desc(sn["cls"], hazards=sn["hazards"], frames=frames, mro=sn.get("mro"), **sn["flags"])
 
 
 def gen_ops_for_snippet(rng, sn, entry, style, inject, nest=None):
@@ -338,7 +360,7 @@ def gen_history(rng, snippets, *, max_ops=6, inject_rate=0.06, styles=STYLES):
         elif r < 0.40:
             # a successful call / evaluate
             ops.append({"entry": "run", "style": rng.choice(STYLES[:3]), "inject": False,
-                        "code": "def f():\n    return 7\n", "term": ["N"], "shape": "defs"})
+                        "code": "def f(*args):\n    return 7\n", "term": ["N"], "shape": "defs"})
             e = rng.choice(["call", "eval"])
             op = {"entry": e, "style": style, "inject": inject, "term": ["N"], "shape": "ok-" + e}
             if e == "eval":
@@ -349,6 +371,29 @@ def gen_history(rng, snippets, *, max_ops=6, inject_rate=0.06, styles=STYLES):
             entry = rng.choice(["run", "run", "run", "call", "eval"])
             nest = rng.choice([None, None, None, "before", "inside"])
             ops.extend(gen_ops_for_snippet(rng, sn, entry, style, inject, nest))
+    return vary(rng, ops)
+
+
+OTHER_MAIN_FILES = ["my_program.py", "hw3_solution.py"]
+CALL_ARGS = [[3, "x"], [None], [[1, 2], {"k": 0.5}]]
+
+
+def vary(rng, ops, force=None):
+    """API dimensions orthogonal to the termination: name of the main file (one per history: call/evaluate keep
+    using the submission of the preceding run), spelling of run (bare / by file name / code + file name),
+    call with or without arguments."""
+    main = force["main"] if force else (rng.choice(OTHER_MAIN_FILES) if rng.random() < 0.3 else MAIN_FILE)
+    for op in ops:
+        if op["entry"] == "run":
+            if main != MAIN_FILE:
+                op["main"] = main
+            spell = force["spell"] if force else rng.choice(["bare", "bare", "byname", "explicit"])
+            if spell != "bare":
+                op["spell"] = spell
+        elif op["entry"] == "call":
+            args = force["args"] if force else (rng.choice(CALL_ARGS) if rng.random() < 0.4 else None)
+            if args is not None:
+                op["args"] = args
     return ops
 
 
@@ -464,6 +509,13 @@ def coverage_histories(rng, per_snippet_entries=("run", "call", "eval")):
             style = STYLES[k % len(STYLES)]
             k += 1
             hists.append(gen_ops_for_snippet(rng, sn, entry, style, False, nest))
+    forces = [{"main": MAIN_FILE, "spell": "bare", "args": None},
+              {"main": OTHER_MAIN_FILES[0], "spell": "bare", "args": CALL_ARGS[0]},
+              {"main": MAIN_FILE, "spell": "explicit", "args": None},
+              {"main": OTHER_MAIN_FILES[1], "spell": "byname", "args": CALL_ARGS[2]},
+              {"main": MAIN_FILE, "spell": "byname", "args": CALL_ARGS[1]}]
+    for i, h in enumerate(hists):
+        vary(rng, h, forces[i % len(forces)])
     return hists
 
 
@@ -554,10 +606,13 @@ def run_history(ops):
     obs = []
     try:
         for op in ops:
+            main = op.get("main", MAIN_FILE)
             if op["entry"] == "run":
-                if op.get("helper") is not None:
-                    contextualize_report(Submission(files={MAIN_FILE: op["code"], HELPER_FILE: op["helper"]}),
-                                         clear=False)
+                if op.get("helper") is not None or main != MAIN_FILE:
+                    files = {main: op["code"]}
+                    if op.get("helper") is not None:
+                        files[HELPER_FILE] = op["helper"]
+                    contextualize_report(Submission(files=files, main_file=main), clear=False)
                 else:
                     contextualize_report(op["code"], filename=MAIN_FILE, clear=False)
             sb = commands.get_sandbox()
@@ -574,9 +629,15 @@ def run_history(ops):
             try:
                 try:
                     if op["entry"] == "run":
-                        ret = commands.run()
+                        spell = op.get("spell", "bare")
+                        if spell == "explicit":
+                            ret = commands.run(op["code"], filename=main)
+                        elif spell == "byname":
+                            ret = commands.run(filename=main)
+                        else:
+                            ret = commands.run()
                     elif op["entry"] == "call":
-                        ret = commands.call("f")
+                        ret = commands.call("f", *op.get("args", []))
                     elif op["entry"] == "callmissing":
                         ret = commands.call("verif_no_such_function")
                     else:
@@ -704,7 +765,8 @@ def parse_answer(ans):
 
 
 C04_FIELDS = ("outcome", "rk", "exc", "fb")
-C05_FIELDS = ("outcome", "stdout", "sleep", "mods", "trace", "bi", "dp", "do")
+# C05 is indifferent to whether the call returned or raised (that is C04's): `outcome` is not compared
+C05_FIELDS = ("stdout", "sleep", "mods", "trace", "bi", "dp", "do")
 
 
 def compare_op(prop, real, model):
@@ -741,9 +803,30 @@ def expected_name(d):
     return "KeyError" if d["isKeyError"] else d["cls"]
 
 
+ALIASES = {"OSError": ["IOError", "EnvironmentError"]}
+
+
+def snake(name):
+    return re.sub(r"(?<=[a-z0-9])(?=[A-Z])|(?<=[A-Z])(?=[A-Z][a-z])", "_", name).lower()
+
+
+def acceptable_labels(d, generic="runtime_error"):
+    """Labels of feedback classes that 'describe that exception class': the generic runtime feedback, or the one
+    named after the class or one of its bases.  None when the class hierarchy is not known by construction."""
+    if not d.get("mro"):
+        return None
+    names = []
+    for n in d["mro"]:
+        names += [n] + ALIASES.get(n, [])
+    return {generic} | {snake(n) for n in names}
+
+
 def student_line(d):
     lines = [l for k, l in d["frames"] if k == "S"]
     return lines[-1] if lines else None
+
+
+SKIPPED = {}     # oracle clauses not applied, per reason (reported in the evidence)
 
 
 def oracle_c04(op, o):
@@ -776,6 +859,14 @@ def oracle_c04(op, o):
     if name != expected_name(d):
         return {"c04": "feedback-wrong-class", "shape": shape}, \
             "the runtime feedback for a %s describes %s" % (d["cls"], name)
+    ok_labels = acceptable_labels(d)
+    if ok_labels is None:
+        SKIPPED["label: class hierarchy not known by construction"] = SKIPPED.get(
+            "label: class hierarchy not known by construction", 0) + 1
+    elif label not in ok_labels:
+        return {"c04": "feedback-wrong-kind", "label": label, "shape": shape}, \
+            "a %s is reported through the feedback class %r (expected the generic one or one named after %s)" % (
+                d["cls"], label, " / ".join(d["mro"][:3]))
     sl = student_line(d)
     if sl is not None and line != sl:
         return {"c04": "location", "shape": shape}, \
